@@ -5,6 +5,7 @@ import (
 	"fmt"
 	"os"
 	"path/filepath"
+	"regexp"
 	"sort"
 	"strings"
 	"testing"
@@ -66,6 +67,13 @@ func genSpec(t *rapid.T, label string) J {
 					o["type"] = "string"
 				}
 			})
+		}
+	}
+	if chance(t, label+"aliaschain", 12) {
+		if defs, ok := doc["definitions"].(J); ok && defs["AliasBase"] == nil {
+			defs["AliasBase"] = J{"type": "string", "format": "uuid", "description": "the thing"}
+			defs["AliasMid"] = J{"$ref": "#/definitions/AliasBase"}
+			defs["AliasHolder"] = J{"type": "object", "properties": J{"one": J{"$ref": "#/definitions/AliasMid"}, "two": J{"$ref": "#/definitions/AliasMid"}, "flag": J{"type": "boolean"}}, "required": A{"flag"}}
 		}
 	}
 	return doc
@@ -226,8 +234,9 @@ func firstDiff(a, b string) string {
 }
 
 // compareTrees reports the files that differ between two runs of one command.
-func compareTrees(o *pbt.Outcome, what, how string, a, b map[string]string) {
+func compareTrees(o *pbt.Outcome, what, how string, a, b map[string]string, spec []byte) {
 	seen := map[string]bool{}
+	aliasRelated := aliasRelatedDefs(spec)
 	for _, p := range work.SortedKeys(a) {
 		bv, ok := b[p]
 		if !ok {
@@ -239,6 +248,13 @@ func compareTrees(o *pbt.Outcome, what, how string, a, b map[string]string) {
 		}
 		if bv != a[p] {
 			k := fileRole(p) + "|" + diffClass(a[p], bv)
+			if fileRole(p) == "models:definition" {
+				// which kind of definition is rendered differently?
+				k += "|plain-definition"
+				if m := reSwaggerModel.FindStringSubmatch(a[p]); m != nil && aliasRelated[strings.TrimSpace(m[1])] {
+					k = strings.TrimSuffix(k, "|plain-definition") + "|alias-of-alias-chain"
+				}
+			}
 			if !seen[k] {
 				seen[k] = true
 				o.Fail("C07|"+how+"|"+what+"|"+k, "%s: %s differs between two runs on the same input\n%s", what, p, firstDiff(a[p], bv))
@@ -251,6 +267,35 @@ func compareTrees(o *pbt.Outcome, what, how string, a, b map[string]string) {
 			o.Fail("C07|"+how+"|"+what+"|"+fileRole(p)+"|file-set", "%s: %s exists in one run only", what, p)
 		}
 	}
+}
+
+var reSwaggerModel = regexp.MustCompile(`(?m)^// swagger:model ([^\n]+)$`)
+
+// aliasRelatedDefs: definitions that are a bare $ref to another definition, and the definitions that refer to one.
+func aliasRelatedDefs(spec []byte) map[string]bool {
+	out := map[string]bool{}
+	doc, err := specgen.Parse(spec)
+	if err != nil {
+		return out
+	}
+	defs, _ := doc["definitions"].(J)
+	alias := map[string]bool{}
+	for n, d := range defs {
+		if dj, ok := d.(J); ok {
+			if _, isRef := dj["$ref"].(string); isRef {
+				alias[n] = true
+				out[n] = true
+			}
+		}
+	}
+	for n, d := range defs {
+		walk(d, func(o J) {
+			if r, ok := o["$ref"].(string); ok && alias[strings.TrimPrefix(r, "#/definitions/")] {
+				out[n] = true
+			}
+		})
+	}
+	return out
 }
 
 const repeats = 3
@@ -309,7 +354,7 @@ func check(c Case) (o pbt.Outcome) {
 			continue
 		}
 		for r := 1; r < len(trees); r++ {
-			compareTrees(&o, what, "not-repeatable", trees[0], trees[r])
+			compareTrees(&o, what, "not-repeatable", trees[0], trees[r], c.Specs[j.Spec])
 		}
 		ref[ji], usable[ji] = trees[0], true
 		o.NT(what + "|" + strings.Join(j.Opts, " "))
@@ -381,7 +426,7 @@ func check(c Case) (o pbt.Outcome) {
 			}
 			if len(o.Violations) == 0 {
 				for i, d := range dirs {
-					compareTrees(&o, jobName(c.Jobs[idx[i]]), "concurrent-differs", ref[idx[i]], readTree(d))
+					compareTrees(&o, jobName(c.Jobs[idx[i]]), "concurrent-differs", ref[idx[i]], readTree(d), c.Specs[c.Jobs[idx[i]].Spec])
 				}
 			}
 			o.NT("concurrent|" + strings.Join(kinds, "+"))
